@@ -39,10 +39,13 @@ def main():
     ap.add_argument('property')
     ap.add_argument('--needs', default='')
     ap.add_argument('--skip-suite', action='store_true')
+    ap.add_argument('--base', default=BASE_COMMIT, help='commit the patch is written against')
+    ap.add_argument('--expect', default=SUITE_EXPECT)
+    ap.add_argument('--note', default='')
     a = ap.parse_args()
     wt = tempfile.mkdtemp(prefix='wt_verify_')
     os.rmdir(wt)
-    rc, out = sh('git -C /repo worktree add -q --detach %s %s' % (wt, BASE_COMMIT))
+    rc, out = sh('git -C /repo worktree add -q --detach %s %s' % (wt, a.base))
     if rc:
         print('worktree failed', out)
         return 2
@@ -71,7 +74,7 @@ def main():
             rc3, out3 = sh('/venv/bin/python -m pytest -q -p no:cacheprovider --timeout=900 --continue-on-collection-errors tests 2>&1 | tail -3', cwd=wt, env=env)
             tail = out3.strip().splitlines()[-1] if out3.strip() else ''
             ran.append({'cmd': 'PYTHONPATH=<patched worktree> pytest -q --continue-on-collection-errors tests', 'tail': tail})
-            if SUITE_EXPECT not in tail or ' failed' in tail:
+            if a.expect not in tail or ' failed' in tail:
                 print('REJECT: test suite differs with the change: %s' % tail)
                 ok = False
         if ok:
@@ -83,7 +86,7 @@ def main():
                 shutil.copy(os.path.join(a.cand, 'notes.md'), os.path.join(dst, 'notes.md'))
             files = re.findall(r'^\+\+\+ b/(\S+)', open(os.path.join(dst, 'patch.diff')).read(), re.M)
             meta = {'property': a.property, 'id': a.seed_id, 'files': files, 'needs_to_manifest': a.needs,
-                    'base_commit': BASE_COMMIT, 'verified': ran,
+                    'base_commit': a.base, 'verified': ran, 'note': a.note,
                     'origin': 'independent sub-agent given only the property text and a scratch worktree'}
             json.dump(meta, open(os.path.join(dst, 'meta.json'), 'w'), indent=1)
             print('KEPT %s (%s): %s' % (a.seed_id, a.property, ', '.join(files)))
